@@ -9,7 +9,7 @@ props = [json.loads(l) for l in open(f'{V}/properties.jsonl')]
 ids = [p['id'] for p in props]
 out_checks = []
 for pid in ids:
-    c = checks.get(pid)
+    c = checks.get(pid)  # T00 (engine self-test) is not a property and is skipped because it is not in properties.jsonl
     if not c or c.get('disabled'):
         continue
     kernel = c.get('kernel', '')
@@ -43,7 +43,7 @@ for pid in ids:
     out_na.append({"property_id": pid, "reason": reason})
 man = {
     "version": 1,
-    "setup_cmd": "sh /verif/build.sh",
+    "setup_cmd": "sh /verif/build.sh && /verif/bin/symgo selftest",
     "hooks": {
         "guard": "verif",
         "enable": "none needed: harnesses and the vf* shim enter through build overlays (go/packages Overlay, go test -overlay); /repo carries no tagged source",
